@@ -204,6 +204,31 @@ func (p c04) Run(w *mon.Worker, idx int) mon.Result {
 		if errors.Is(err, ref.ErrDomain) {
 			return skip("outside the modelled domain")
 		}
+		if err == nil && idx%4 == 1 {
+			// the right operand serves several merges of one evaluation (and sits one level further down): each merge
+			// gives what it gives on its own
+			empty := &ref.V{K: ref.Map, M: []ref.KV{}}
+			wantE, errE := ref.Merge(empty, b, fl)
+			if errE == nil {
+				doc2 := ref.MapV(ref.KV{K: "a", V: a}, ref.KV{K: "w", V: ref.MapV(ref.KV{K: "b", V: b})})
+				expr := fmt.Sprintf("[.a %s .w.b, {} %s .w.b, .a %s .w.b]", op, op, op)
+				if r.IntN(2) == 0 {
+					expr = fmt.Sprintf("(.a %s .w.b) as $m | [$m, {} %s .w.b, .a %s .w.b]", op, op, op)
+				}
+				cs["expr"] = expr
+				res.Tags = append(res.Tags, "operand_used_twice")
+				got, _, yerr := evalDoc(expr, doc2)
+				res.Evals++
+				if yerr != nil {
+					return fail("`%s` failed: %v\n a = %s\n b = %s", expr, yerr, a, b)
+				}
+				if wantAll := ref.SeqV(want, wantE, want); got == nil || !ref.EqualNum(got, wantAll) {
+					return fail("`%s`\n a = %s\n .w.b = %s\n expected %s\n observed %s", expr, a, b, wantAll, got)
+				}
+				res.Verdict, res.Detail = mon.Held, "three merges sharing their right operand"
+				return res
+			}
+		}
 		expr := ".a " + op + " .b"
 		cs["expr"] = expr
 		got, _, yerr := evalDoc(expr, doc)
